@@ -118,6 +118,27 @@ Section C20.
       fs_get (d1, n) (fs x2) = None /\ fs_get (h_dir h, n) (fs x2) = fs_get (h_dir h, n) (fs x).
   Proof. exact (C20_copy_then_move fault). Qed.
 End C20.
+
+(* the path library underneath, no longer an oracle: for a plain name (what checkListedFilename accepts) and a clean
+   absolute directory, path.Join(dir, name) is the entry `name` of that directory - the path the model's (directory,
+   name) pairs stand for - its filepath.Base is the name and its filepath.Dir the directory; PATH.v is run against the Go
+   functions by the tie *)
+Require PATH.
+Theorem C20_plain_name_is_an_entry_of_its_directory : forall d cs n, PATH.clean_abs d cs -> cs <> [] -> PATH.plain n = true ->
+  PATH.join2 d n = d ++ PATH.slash :: n /\ PATH.base (PATH.join2 d n) = n /\ PATH.dir (PATH.join2 d n) = d /\
+  PATH.clean_abs (PATH.join2 d n) (cs ++ [n]).
+Proof.
+  intros d cs n C NE P. destruct (PATH.join_plain d cs n C P) as [J A]. destruct cs as [|c0 cr]; [congruence|].
+  rewrite J. split; [reflexivity|]. split; [now apply PATH.base_of_entry|]. split; [now apply (PATH.dir_of_entry d (c0 :: cr))|].
+  now rewrite <- J.
+Qed.
+Theorem C20_plain_is_checklistedfilename : forall n, PATH.plain n = U20.plain n.
+Proof. reflexivity. Qed.
+Example C20_traversal_names_leave_the_directory :
+  PATH.join2 (GS.s "/srv/incoming") (GS.s "../outside/canary") = GS.s "/srv/outside/canary" /\
+  PATH.plain (GS.s "../outside/canary") = false /\ PATH.plain (GS.s "..") = false /\ PATH.plain (GS.s "x_1.0.dsc") = true.
+Proof. vm_compute. repeat split. Qed.
+Print Assumptions C20_plain_name_is_an_entry_of_its_directory.
 Print Assumptions C20_control_file_last_copy.
 Print Assumptions C20_failed_copy_leaves_no_control_file.
 Print Assumptions C20_successful_copy_is_identical.
